@@ -402,8 +402,8 @@ def rule_error_probabilities(ctx):
             ok = rets[0].value == want and ls[0].args[0] == Form.num(0) and ls[0].args[1] == a
             ctx.check("C13.3", ok, f, rets[0].node, "ook.theory_BER kernel", "1/2*min_r[Q((mu1-r)/s1)+Q(r/s0)] over linspace(0, mu1, n)",
                       f"kernel {rets[0].value!r} differs from the grid minimum of the two-Gaussian error integral"[:500])
-            dec = [src_of(d) for d in f.node.decorator_list] if hasattr(f.node, "decorator_list") else []
-            ctx.check("C13.7", any("vectorize" in d for d in dec), f, f.node, "ook.theory_BER kernel is np.vectorize'd", "element-wise", "the kernel is not vectorised: array arguments are not handled element-wise")
+            unvec = _unvectorised_kernels(fi.node)
+            ctx.check("C13.7", f.name not in unvec, f, f.node, "ook.theory_BER kernel is np.vectorize'd", "element-wise", "the kernel is not vectorised: array arguments are not handled element-wise")
             done = True
     if not done:
         ctx.unknown("C13.3", fi, fi.node, "ook.theory_BER", "vectorised kernel not found")
@@ -496,9 +496,9 @@ def rule_error_probabilities(ctx):
     pass  # (clause removed: the property statement names no exception for this case - it was read off the docstring, i.e. the check demanded more than the property)
     # vectorisation of ppm.theory_BER kernels
     src = pkg.module("ppm").src
-    vec = [n for n in ast.walk(fi.node) if (isinstance(n, ast.Call) and src_of(n.func) in ("np.vectorize", "numpy.vectorize"))
-           or (isinstance(n, ast.FunctionDef) and any("vectorize" in src_of(d) for d in n.decorator_list))]
-    ctx.check("C13.7", len(vec) >= 2, fi, fi.node, "ppm.theory_BER kernels are np.vectorize'd", "element-wise for both decisions", "a decision kernel is not vectorised")
+    kernels, unvec = _unvectorised_kernels(fi.node, both=True)
+    ctx.check("C13.7", len(kernels) >= 2 and not unvec, fi, fi.node, "ppm.theory_BER kernels are np.vectorize'd", "element-wise for both decisions",
+              f"a decision kernel is not vectorised ({sorted(unvec) or 'fewer than two kernels found'})")
     # ---------------- utils.theory_BER kernels
     fi = ber_kernel(pkg)
     for modn, dec in (("ook", None), ("ppm", "hard"), ("ppm", "soft")):
@@ -568,6 +568,39 @@ def rule_error_probabilities(ctx):
         ctx.check("C13.3", rets2[0].value == want2, fi, rets2[0].node, case2, "error probability at threshold*mu_ON + (1-threshold)*mu_OFF",
                   "with an explicit threshold the error integral is not evaluated at t*mu_ON + (1-t)*mu_OFF (the point between the two received levels): for a finite extinction ratio "
                   "the result is not the two-Gaussian error of the receiver model at the requested threshold")
+
+
+def _unvectorised_kernels(fnode, both=False):
+    """the per-element kernels nested in a function (nested defs, lambdas bound to a name) and those of them that are NOT run under
+    np.vectorize: a kernel is vectorised by a decorator, by being wrapped where it is defined (`f = np.vectorize(lambda ...)`), or by
+    its name being handed to np.vectorize later (`np.vectorize(fun)(...)` after the branches that define `fun`)"""
+    is_vec = lambda c: isinstance(c, ast.Call) and src_of(c.func) in ("np.vectorize", "numpy.vectorize")
+    handed = {a.id for n in ast.walk(fnode) if is_vec(n) for a in n.args if isinstance(a, ast.Name)}
+    kernels, unvec = [], set()
+
+    def own_nodes(root):
+        """nodes of the function itself: the bodies of nested defs / lambdas are those functions' business (an integrand bound to a
+        name inside a vectorised kernel is not a kernel)"""
+        stack = list(ast.iter_child_nodes(root))
+        while stack:
+            n_ = stack.pop()
+            yield n_
+            if not isinstance(n_, (ast.FunctionDef, ast.AsyncFunctionDef, ast.Lambda)):
+                stack.extend(ast.iter_child_nodes(n_))
+    for n in own_nodes(fnode):
+        if isinstance(n, ast.FunctionDef) and n is not fnode:
+            kernels.append(n.name)
+            if not (any("vectorize" in src_of(d) for d in n.decorator_list) or n.name in handed):
+                unvec.add(n.name)
+        elif isinstance(n, ast.Assign) and len(n.targets) == 1 and isinstance(n.targets[0], ast.Name):
+            v = n.value
+            if isinstance(v, ast.Lambda):
+                kernels.append(n.targets[0].id)
+                if n.targets[0].id not in handed:
+                    unvec.add(n.targets[0].id)
+            elif is_vec(v) and v.args and isinstance(v.args[0], ast.Lambda):
+                kernels.append(n.targets[0].id)
+    return (kernels, unvec) if both else unvec
 
 
 def _plateau_pick(ctx, fi, node, how, rule):
@@ -826,7 +859,12 @@ def _check_soft(ctx, fi, it, v, node, case, dmu, s0, s1, M, factor):
     one_minus = not complement
     loose = epsabs is None or not (isinstance(epsabs, Form) and epsabs.is_zero())
     label = f"{case}: tail probability not formed as 1 - quadrature with an absolute tolerance"
-    if one_minus or loose:
+    if complement and loose:
+        ctx.violation("C13.10", fi, q.node, label,
+                      "the complement is integrated, but with quad's default absolute tolerance (epsabs = 1.49e-8, not switched off): quad stops as soon as its error estimate is below the larger of "
+                      "the two tolerances, so every symbol error probability below about 1e-8 is accepted after the first coarse pass - ppm.theory_BER(6, 1.0, 0.1, 2, 'soft') = 2.35e-9 where "
+                      "Q(mu/sqrt(s0^2+s1^2)) = 1.19e-9, and BER(5.90) = 2.17e-9 < BER(6.00) = 2.35e-9")
+    elif one_minus or loose:
         ctx.violation("C13.10", fi, q.node, label,
                       "the symbol error probability is 1 - quad(...)[0]/sqrt(2 pi) with quad's default absolute tolerance 1.49e-8: values below it are quadrature noise. "
                       "ppm.theory_BER(6, 0.02, 1, 2, 'soft') = 1.72e-9 where Q(mu/sqrt(s0^2+s1^2)) = 9.94e-10; theory_BER(6.5, 0.02, 1, 8): soft 6.26e-11 > hard 6.05e-11; "
